@@ -1,6 +1,7 @@
 package main
 
 import (
+	"go/constant"
 	"go/token"
 	"go/types"
 	"sort"
@@ -205,6 +206,159 @@ func dominatingConds(blk *ssa.BasicBlock) []condTruth {
 			}
 		}
 	}
+	return out
+}
+
+// impliedCond is a condition known to hold at a block: one of the function's own dominating
+// branch conditions (Subst nil), or a condition inside a boolean helper ("predicate") that holds
+// whenever the helper returned true, with Subst mapping the helper's parameters to the arguments
+// of the dominating call.
+type impliedCond struct {
+	Cond  ssa.Value
+	Truth bool
+	Subst map[ssa.Value]ssa.Value
+}
+
+func (ic impliedCond) resolve(v ssa.Value) ssa.Value {
+	if ic.Subst != nil {
+		if a, ok := ic.Subst[v]; ok {
+			return a
+		}
+	}
+	return v
+}
+
+// impliedConds: dominatingConds plus what dominating `if pred(x)` calls of repo predicates imply.
+func impliedConds(blk *ssa.BasicBlock) []impliedCond {
+	var out []impliedCond
+	for _, ct := range dominatingConds(blk) {
+		out = append(out, impliedCond{ct.Cond, ct.Truth, nil})
+		call, ok := ct.Cond.(*ssa.Call)
+		if !ok || !ct.Truth {
+			continue
+		}
+		callee := call.Call.StaticCallee()
+		if callee == nil || callee.Blocks == nil || curProg == nil || !curProg.InRepo(callee) {
+			continue
+		}
+		facts := predicateFacts(callee)
+		if len(facts) == 0 {
+			continue
+		}
+		sub := map[ssa.Value]ssa.Value{}
+		for i, par := range callee.Params {
+			if i < len(call.Call.Args) {
+				sub[par] = call.Call.Args[i]
+			}
+		}
+		for _, f := range facts {
+			out = append(out, impliedCond{f.Cond, f.Truth, sub})
+		}
+	}
+	return out
+}
+
+var predicateFactsCache = map[*ssa.Function][]condTruth{}
+
+// predicateFacts: branch conditions (over fn's own values) that hold on every path on which the
+// one-result boolean function fn returns true.
+func predicateFacts(fn *ssa.Function) []condTruth {
+	if f, ok := predicateFactsCache[fn]; ok {
+		return f
+	}
+	predicateFactsCache[fn] = nil
+	res := fn.Signature.Results()
+	if res.Len() != 1 {
+		return nil
+	}
+	if b, ok := res.At(0).Type().Underlying().(*types.Basic); !ok || b.Kind() != types.Bool {
+		return nil
+	}
+	type set = map[condTruth]bool
+	inter := func(a, b set) set {
+		if a == nil {
+			return b
+		}
+		o := set{}
+		for k := range a {
+			if b[k] {
+				o[k] = true
+			}
+		}
+		return o
+	}
+	var factsTrue func(v ssa.Value, at *ssa.BasicBlock, depth int) (set, bool)
+	factsTrue = func(v ssa.Value, at *ssa.BasicBlock, depth int) (set, bool) {
+		base := set{}
+		for _, ct := range dominatingConds(at) {
+			base[ct] = true
+		}
+		if depth > 6 {
+			return base, true
+		}
+		switch x := v.(type) {
+		case *ssa.Const:
+			if x.Value != nil && !constant.BoolVal(x.Value) {
+				return nil, false // this path does not return true
+			}
+			return base, true
+		case *ssa.Phi:
+			var acc set
+			any := false
+			for i, e := range x.Edges {
+				s, ok := factsTrue(e, x.Block().Preds[i], depth+1)
+				if !ok {
+					continue
+				}
+				any = true
+				acc = inter(acc, s)
+			}
+			if !any {
+				return nil, false
+			}
+			for k := range base {
+				acc[k] = true
+			}
+			return acc, true
+		case *ssa.UnOp:
+			if x.Op == token.NOT {
+				base[condTruth{x.X, false}] = true
+				return base, true
+			}
+		case *ssa.BinOp, *ssa.Call:
+			base[condTruth{v, true}] = true
+			return base, true
+		}
+		return base, true
+	}
+	var acc set
+	any := false
+	eachInstr(fn, func(in ssa.Instruction) {
+		ret, ok := in.(*ssa.Return)
+		if !ok || len(ret.Results) != 1 {
+			return
+		}
+		s, ok := factsTrue(ret.Results[0], ret.Block(), 0)
+		if !ok {
+			return
+		}
+		any = true
+		acc = inter(acc, s)
+	})
+	if !any {
+		return nil
+	}
+	var out []condTruth
+	for k := range acc {
+		out = append(out, k)
+	}
+	sort.Slice(out, func(i, j int) bool {
+		if out[i].Cond.Pos() != out[j].Cond.Pos() {
+			return out[i].Cond.Pos() < out[j].Cond.Pos()
+		}
+		return out[i].Cond.Name() < out[j].Cond.Name()
+	})
+	predicateFactsCache[fn] = out
 	return out
 }
 
@@ -744,7 +898,13 @@ func rangeCallbackFn(p *Prog, call ssa.CallInstruction) *ssa.Function {
 	if len(args) < 2 {
 		return nil
 	}
-	for _, o := range origins(args[1]) {
+	return callbackFnOf(p, args[1])
+}
+
+// callbackFnOf: the repo function a function value stands for: a func literal, a named function
+// or a (bound) method value.
+func callbackFnOf(p *Prog, v ssa.Value) *ssa.Function {
+	for _, o := range origins(v) {
 		var fn *ssa.Function
 		switch x := o.(type) {
 		case *ssa.MakeClosure:
